@@ -187,7 +187,7 @@ def gen_trace(recipe):
         sing[:d - 1, :d - 1] = spd[:d - 1, :d - 1]
       # the inverse returned with an array prior, over a wide range of magnitudes
       for sc in (1.0, float(2.0 ** int(rng.integers(-30, -5))), float(2.0 ** int(rng.integers(5, 31)))):
-        out, res = outcome_of(lambda: _initialize_metric_mahalanobis(inp, spd * sc, random_state=seed, return_inverse=True))
+        out, res = outcome_of(lambda: _initialize_metric_mahalanobis(inp, gen.layout(rng, spd * sc), random_state=seed, return_inverse=True))
         if res:
           events.append({'ev': 'Inverse', 'd': d, 'M': dym(res[0]), 'Minv': dym(res[1])})
       nonsym = spd.copy(); nonsym[0, 1] += 1.0
@@ -195,7 +195,8 @@ def gen_trace(recipe):
       wrong = np.eye(d + 1)
       for cls_, arr in [('spd', spd), ('singular', sing), ('nonsym', nonsym), ('indefinite', indef), ('wrongshape', wrong)]:
         for strict in (False, True):
-          out, res = outcome_of(lambda: _initialize_metric_mahalanobis(inp, arr, random_state=seed, strict_pd=strict))
+          # (the user's array in any memory layout: C, Fortran, transposed or strided view - the same numbers)
+          out, res = outcome_of(lambda: _initialize_metric_mahalanobis(inp, gen.layout(rng, arr), random_state=seed, strict_pd=strict))
           events.append({'ev': 'InitMetric', 'init': 'array', 'd': d, 'strict': strict, 'outcome': out, 'pts': [],
                          'M': dym(res) if res is not None else [], 'M2': [], 'chol': [], 'arr': dym(arr), 'arr_class': cls_})
       # an SPD array is an SPD array whatever its dtype: integer-typed priors through the learners that take one
@@ -207,7 +208,7 @@ def gen_trace(recipe):
           o = dict(gen.FAST[name])
           if name == 'SDML':
             o['balance_param'] = 2.0 ** -20
-          oi, ri = outcome_of(lambda: gen.CLS[name](**dict(o, **{key: spd_i.copy()})).fit(*tr['fit_args']))
+          oi, ri = outcome_of(lambda: gen.CLS[name](**dict(o, **{key: gen.layout(rng, spd_i)})).fit(*tr['fit_args']))
           of, rf = outcome_of(lambda: gen.CLS[name](**dict(o, **{key: spd_i.astype(float)})).fit(*tr['fit_args']))
           if of == 'ok':
             events.append({'ev': 'ArrayPriorDtype', 'via': name, 'outcome_int': oi, 'L_float': dym(rf.components_),
